@@ -102,7 +102,7 @@ def probe_perm(ctx, payload):
     k = len(case["teams"])
     noise = tol.wt_noise(case, base.cfg, base.tau, meta["levels"])
     munoise = tol.mu_noise(case)
-    jump = tol.vt_jump(case, base.cfg, base.tau, meta["levels"])
+    vnoise = tol.vt_noise(case, base.cfg, base.tau, meta["levels"])
     multi = k >= 3 or any(len(t) >= 2 for t in case["teams"])
     for tp, pp in payload["perms"]:
         c2 = dict(case)
@@ -119,6 +119,9 @@ def probe_perm(ctx, payload):
             ctx.violation("no-return", "perm", payload, dict(exc=exc_detail(r2.exc) if r2.exc else r2.shape_err,
                                                               perm=[tp, pp]), model, reg)
             continue
+        # teams whose players are listed in another order in this presentation (their float mu sum may differ by an ulp)
+        resummed = {i for i, pj in zip(tp, pp) if len(pj) >= 2 and pj != sorted(pj)}
+        jump = tol.vt_jump(case, base.cfg, base.tau, meta["levels"], resummed)
         bad = None
         for newi, (i, pj) in enumerate(zip(tp, pp)):
             for newj, j in enumerate(pj):
@@ -128,7 +131,7 @@ def probe_perm(ctx, payload):
                 ctx.ev("perm/mu")
                 ctx.ev("perm/sigma")
                 share = (s0 * s0 + base.tau ** 2) / math.fsum(p[1] ** 2 + base.tau ** 2 for p in case["teams"][i])
-                tmu = tol.R * max(abs(a[0] - mu0), abs(b[0] - mu0)) + munoise + share * jump[i]
+                tmu = tol.R * max(abs(a[0] - mu0), abs(b[0] - mu0)) + munoise + share * (jump[i] + vnoise[i])
                 dmu = abs(a[0] - b[0])
                 ctx.frac(f"mu/{kind}", dmu / tmu if tmu > 0 else (0 if dmu == 0 else math.inf))
                 if not dmu <= tmu:
@@ -144,6 +147,8 @@ def probe_perm(ctx, payload):
             ctx.count("tm_tie_cases_with_noise_allowance")
         if max(jump) > 0:
             ctx.count("tm_tie_cases_with_equal_mu_vt_jump_allowance")
+        elif kind in ("TMF", "TMP") and meta["ties"] != "none" and meta.get("regime") == "identical":
+            ctx.count("tm_tie_equal_mu_cases_judged_without_jump_allowance")
         ctx.case(dict(c=case, p=[tp, pp]), (not ident) and multi and updated(base))
         if bad:
             ctx.violation("perm/" + bad["what"], "perm", payload, bad, model, reg)
